@@ -128,28 +128,32 @@ func (b *capBackend) Put(path string, data []byte) error {
 // directory snapshots
 
 type entry struct {
-	mode os.FileMode
-	size int64
-	sum  [32]byte
-	link string
+	mode  os.FileMode
+	size  int64
+	mtime int64
+	sum   [32]byte
+	link  string
 }
 
-// snapshot records every path under root (relative names): type, permission bits, size, content hash.
-func snapshot(root string) map[string]entry {
+// snapshot records every path under root (relative names): type, permission bits, size,
+// modification time and, with content set, the content hash (system calls are what a case costs).
+func snapshot(root string, content bool) map[string]entry {
 	out := map[string]entry{}
 	filepath.Walk(root, func(p string, info os.FileInfo, err error) error {
 		if err != nil || p == root {
 			return nil
 		}
-		rel, _ := filepath.Rel(root, p)
+		rel := strings.TrimPrefix(p, root+string(os.PathSeparator))
 		e := entry{mode: info.Mode()}
 		switch {
 		case info.Mode()&os.ModeSymlink != 0:
 			e.link, _ = os.Readlink(p)
 		case info.Mode().IsRegular():
-			e.size = info.Size()
-			if b, rerr := os.ReadFile(p); rerr == nil {
-				e.sum = sha256.Sum256(b)
+			e.size, e.mtime = info.Size(), info.ModTime().UnixNano()
+			if content {
+				if b, rerr := os.ReadFile(p); rerr == nil {
+					e.sum = sha256.Sum256(b)
+				}
 			}
 		}
 		out[rel] = e
@@ -182,12 +186,14 @@ func diff(before, after map[string]entry, keep func(rel string) bool) []string {
 }
 
 var tmpName = regexp.MustCompile(`(c07-[a-z0-9]+-|kshist-v[12]-)[0-9]+`)
+var timeName = regexp.MustCompile(`[0-9]{4}-[0-9]{2}-[0-9]{2}T[0-9]{2}:[0-9]{2}:[0-9]{2}(\.[0-9]+)?`)
 
 // clean removes per-case scratch names from messages (a replay must reproduce the same message).
 func clean(s string) string {
 	if td := os.TempDir(); td != "" {
 		s = strings.ReplaceAll(s, td, "<tmp>")
 	}
+	s = timeName.ReplaceAllString(s, "<time>")
 	return tmpName.ReplaceAllString(s, "${1}N")
 }
 
